@@ -85,6 +85,7 @@ type vfC04Plan struct {
 	AcceptTimeout time.Duration `json:"accept_timeout"`
 	AcceptDelay   time.Duration `json:"accept_delay"` // the acceptor starts calling Accept this late
 	DialerHangsUp bool          `json:"dialer_hangs_up"` // the dialer closes its connection as soon as Upgrade returns
+	Stagger       time.Duration `json:"stagger"` // dialer i arrives i*Stagger late
 	K2            int           `json:"k2"`    // a second fault, on the OTHER end
 	Kind2         string        `json:"kind2"` // err | eof | stall
 }
@@ -118,6 +119,9 @@ func (p vfC04Plan) String() string {
 	if p.K2 > 0 {
 		s += fmt.Sprintf("/+%s@%d", p.Kind2, p.K2)
 	}
+	if p.Stagger > 0 {
+		s += "/stagger" + p.Stagger.String()
+	}
 	return s
 }
 
@@ -129,6 +133,7 @@ type vfC04Outcome struct {
 	DialErr    []string
 	Accepted   int
 	Deadlock   string
+	Hung       string
 	Leaked     []string
 	Notes      []string
 }
@@ -164,6 +169,9 @@ func vfC04Ids(t *testing.T) {
 type vfC04Stages struct {
 	mu sync.Mutex
 	m  map[int]string // local port of the raw end -> stage
+	// onPoint is called from inside the upgrade at points where no I/O happens: "gate" (InterceptSecured
+	// is about to allow) and "mux" (the muxer session has just been created); inbound = listener side
+	onPoint func(point string, inbound bool)
 }
 
 func (s *vfC04Stages) set(port int, st string) {
@@ -229,11 +237,15 @@ func (m *vfC04Mux) NewConn(c net.Conn, server bool, scope network.PeerScope) (ne
 	mc, err := m.Multiplexer.NewConn(c, server, scope)
 	if err == nil {
 		m.st.set(vfC04Port(c.LocalAddr()), "muxed")
+		if h := m.st.onPoint; h != nil {
+			h("mux", server)
+		}
 	}
 	return mc, err
 }
 
 type vfC04Gater struct {
+	inbound       bool
 	st            *vfC04Stages
 	rejectAccept  bool
 	rejectSecured bool
@@ -259,6 +271,9 @@ func (g *vfC04Gater) InterceptSecured(_ network.Direction, _ peer.ID, a network.
 		return false
 	}
 	g.st.set(vfC04MaPort(a.LocalMultiaddr()), "muxneg")
+	if h := g.st.onPoint; h != nil {
+		h("gate", g.inbound)
+	}
 	return true
 }
 func (g *vfC04Gater) InterceptUpgraded(network.Conn) (bool, control.DisconnectReason) {
@@ -333,7 +348,7 @@ func vfC04Scenario(t *testing.T, cfg vfC04Cfg, plan vfC04Plan, tr *vfh.Trace, ou
 		n = 1
 	}
 	st := &vfC04Stages{}
-	gD, gL := &vfC04Gater{st: st}, &vfC04Gater{st: st}
+	gD, gL := &vfC04Gater{st: st}, &vfC04Gater{st: st, inbound: true}
 	modD := func(c *rcmgr.PartialLimitConfig) {}
 	modL := func(c *rcmgr.PartialLimitConfig) {}
 	nilPeer, setPeerByHarness := false, true
@@ -426,6 +441,31 @@ func vfC04Scenario(t *testing.T, cfg vfC04Cfg, plan vfC04Plan, tr *vfh.Trace, ou
 			e.OnFire = markHit
 		}
 	}
+	// Close() / cancel issued at a point of the upgrade where no I/O happens; the upgrade resumes only when
+	// the closing goroutine has gone as far as it can (it is then blocked draining the accept queue)
+	if strings.HasPrefix(plan.Kind, "lclose-at-") || strings.HasPrefix(plan.Kind, "cancel-at-") {
+		point := plan.Kind[len(plan.Kind)-4:]
+		point = strings.TrimPrefix(point, "-")
+		var once sync.Once
+		st.onPoint = func(pt string, inbound bool) {
+			if pt != point || inbound != strings.HasPrefix(plan.Kind, "lclose") {
+				return
+			}
+			once.Do(func() {
+				hitMu.Lock()
+				out.Hit, out.Stage = true, plan.Kind
+				hitMu.Unlock()
+				tr.Emit("fault", "o", map[bool]string{true: "l1", false: "d1"}[inbound], "k", 0, "op", "-", "kind", plan.Kind, "stage", pt)
+				if inbound {
+					wg.Add(1)
+					go func() { defer wg.Done(); closeListener("race") }()
+				} else {
+					atts[0].cancel()
+				}
+				synctest.Wait()
+			})
+		}
+	}
 	// the fault
 	if plan.Side != "" && plan.K > 0 {
 		a := atts[0]
@@ -515,6 +555,12 @@ func vfC04Scenario(t *testing.T, cfg vfC04Cfg, plan vfC04Plan, tr *vfh.Trace, ou
 			defer wg.Done()
 			defer cancel()
 			o := a.d.Name
+			if plan.Stagger > 0 {
+				time.Sleep(time.Duration(a.i-1) * plan.Stagger)
+				led.Begin(a.l.Name, "conn", "in", "l", true)
+				st.set(vfC04Port(a.l.LocalAddr()), "accept")
+				fl.Ch <- a.l
+			}
 			led.Begin(o, "conn", "out", "d", true)
 			scope, err := rmD.OpenConnection(network.DirOutbound, true, a.d.RemoteMultiaddr())
 			if err != nil {
@@ -615,6 +661,9 @@ func vfC04Scenario(t *testing.T, cfg vfC04Cfg, plan vfC04Plan, tr *vfh.Trace, ou
 	}
 	// hand the raw connections to the listener
 	for _, a := range atts {
+		if plan.Stagger > 0 {
+			break
+		}
 		led.Begin(a.l.Name, "conn", "in", "l", true)
 		st.set(vfC04Port(a.l.LocalAddr()), "accept")
 		fl.Ch <- a.l
@@ -683,7 +732,8 @@ wait:
 	synctest.Wait()
 	out.Leaked = vfc04.Census()
 	switch plan.Kind {
-	case "none", "err", "eof", "stall", "cancel", "lclose", "cclose":
+	case "none", "err", "eof", "stall", "cancel", "lclose", "cclose",
+		"lclose-at-gate", "lclose-at-mux", "cancel-at-gate", "cancel-at-mux":
 	case "gater-accept", "gater-secured-l":
 		out.Hit, out.Stage = gL.rejected.Load() > 0, plan.Kind
 	case "gater-secured-d":
@@ -701,16 +751,26 @@ wait:
 
 // vfC04Run executes one scenario in its own bubble. A bubble that cannot finish (a goroutine of the
 // attempt is blocked for ever) makes synctest panic in this goroutine: recorded, not fatal.
-func vfC04Run(t *testing.T, cfg vfC04Cfg, plan vfC04Plan, tr *vfh.Trace) (out vfC04Outcome) {
-	defer func() {
-		if r := recover(); r != nil {
-			out.Deadlock = fmt.Sprint(r)
-			tr.Emit("deadlock", "msg", out.Deadlock)
-		}
-	}()
-	synctest.Test(t, func(t *testing.T) { vfC04Scenario(t, cfg, plan, tr, &out) })
-	return out
+func vfC04Run(t *testing.T, cfg vfC04Cfg, plan vfC04Plan, tr *vfh.Trace) vfC04Outcome {
+	out := &vfC04Outcome{}
+	defQueue := upgrader.AcceptQueueLength
+	dl, hung := vfc04.RunBubble(t, vfC04RealLimit, func(t *testing.T) { vfC04Scenario(t, cfg, plan, tr, out) })
+	if dl != "" {
+		out.Deadlock = dl
+		tr.Emit("deadlock", "msg", dl)
+	}
+	if hung != "" {
+		// the abandoned scenario cannot run its deferred restores
+		ipnet.ForcePrivateNetwork = false
+		upgrader.AcceptQueueLength = defQueue
+		o := *out
+		o.Hung = hung
+		return o
+	}
+	return *out
 }
+
+const vfC04RealLimit = 25 * time.Second
 
 // ----------------------------------------------------------------------------------------------
 // the enumeration
@@ -739,6 +799,11 @@ func vfC04Specials(cfg vfC04Cfg, base bool) []vfC04Plan {
 		{Kind: "noaccept", NoAccept: true},
 		{Kind: "noaccept", NoAccept: true, AcceptTimeout: 2 * time.Second},
 		{Kind: "noaccept", NoAccept: true, CloseAt: 5 * time.Second},
+		{Kind: "lclose-at-gate"}, {Kind: "lclose-at-gate"}, {Kind: "lclose-at-gate"},
+		{Kind: "lclose-at-mux"}, {Kind: "lclose-at-mux"}, {Kind: "lclose-at-mux"}, {Kind: "lclose-at-mux"},
+		{Kind: "lclose-at-mux", NoAccept: true}, {Kind: "lclose-at-mux", NoAccept: true}, {Kind: "lclose-at-mux", NoAccept: true},
+		{Kind: "lclose-at-mux", NoAccept: true}, {Kind: "lclose-at-gate", NoAccept: true},
+		{Kind: "cancel-at-gate"}, {Kind: "cancel-at-mux"},
 		{Kind: "hangup", DialerHangsUp: true},
 		{Kind: "hangup-queued", DialerHangsUp: true, AcceptDelay: time.Second},
 		{Kind: "hangup-queued", DialerHangsUp: true, AcceptDelay: 20 * time.Second},
@@ -749,6 +814,11 @@ func vfC04Specials(cfg vfC04Cfg, base bool) []vfC04Plan {
 			vfC04Plan{Kind: "threshold", N: 3, QueueLen: 1, NoAccept: true, CloseAt: time.Second},
 			vfC04Plan{Kind: "threshold", N: 3, QueueLen: 1, NoAccept: true, CloseAt: 20 * time.Second},
 			vfC04Plan{Kind: "threshold", N: 4, QueueLen: 2, NoAccept: true, CloseAt: 15 * time.Second},
+			vfC04Plan{Kind: "threshold", N: 3, QueueLen: 1, NoAccept: true, Stagger: time.Second},
+			vfC04Plan{Kind: "threshold", N: 3, QueueLen: 1, NoAccept: true, Stagger: time.Second, CloseAt: 5 * time.Second},
+			vfC04Plan{Kind: "threshold", N: 3, QueueLen: 1, NoAccept: true, Stagger: time.Second, CloseAt: 17 * time.Second},
+			vfC04Plan{Kind: "threshold", N: 4, QueueLen: 2, NoAccept: true, Stagger: 2 * time.Second, AcceptTimeout: 3 * time.Second},
+			vfC04Plan{Kind: "threshold", N: 3, QueueLen: 1, Stagger: time.Second, AcceptDelay: 4 * time.Second},
 			vfC04Plan{Kind: "multi", N: 3},
 			vfC04Plan{Kind: "multi", N: 3, QueueLen: 1},
 			vfC04Plan{Kind: "multi", N: 3, CloseAt: time.Millisecond},
@@ -789,12 +859,15 @@ func TestVerifC04Upgrader(t *testing.T) {
 		}
 		if path != "" {
 			if err := tr.AppendTo(path, map[string]any{"family": "upgrader", "cfg": cfg.String(), "plan": plan.String(), "kind": plan.Kind,
-				"side": plan.Side, "k": plan.K, "hit": out.Hit, "stage": out.Stage, "p": plan}); err != nil {
+				"side": plan.Side, "k": plan.K, "hit": out.Hit, "stage": out.Stage, "p": plan, "hang": out.Hung}); err != nil {
 				t.Fatal(err)
 			}
 		}
-		if out.Deadlock != "" || len(out.Leaked) > 0 {
-			res.Sample(map[string]any{"cfg": cfg.String(), "plan": plan.String(), "deadlock": out.Deadlock, "leaked": out.Leaked})
+		if out.Deadlock != "" || len(out.Leaked) > 0 || out.Hung != "" {
+			res.Sample(map[string]any{"cfg": cfg.String(), "plan": plan.String(), "deadlock": out.Deadlock, "leaked": out.Leaked, "hung": out.Hung})
+		}
+		if out.Hung != "" {
+			res.Inc("hangs", 1)
 		}
 		return out
 	}
@@ -819,7 +892,7 @@ func TestVerifC04Upgrader(t *testing.T) {
 		nd, nl := 0, 0
 		for r := 0; r < 2; r++ {
 			out := run(cfg, vfC04Plan{Kind: "none"})
-			if len(out.DialErr) > 0 || out.Accepted != 1 || out.Deadlock != "" {
+			if len(out.DialErr) > 0 || out.Accepted != 1 || out.Deadlock != "" || out.Hung != "" {
 				t.Fatalf("dry run failed for %s: %+v", cfg, out)
 			}
 			nd, nl = max(nd, out.OpsD), max(nl, out.OpsL)
